@@ -31,7 +31,10 @@ RULE = ("(1) long strings: strings written through _write_longstring in both esc
         "objects (defaults, types, deleting keyvalues/inputs/outputs, renaming, appending to val_list/resources/kv_order, editing a base, "
         "collapse_bases, deleting entities): after every lookup the result is compared (deep, bases included) with a PRISTINE independently "
         "unserialised reference and id-walked so that no mutable object is shared with any earlier result or with the database's cache; "
-        "failing histories are shrunk (ddmin) and replayable.")
+        "failing histories are shrunk (ddmin) and replayable. ARGUMENT FORMS: every form the entry points accept today (path as str with/without "
+        "extension vs File object, with/without filesystem, keywords; export to str vs into a stream at position 0 / non-zero; BytesIO at position 0 / 5; "
+        "tuple-valued entity fields; one KVDef/IODef object installed in several places; engine_def in any letter case) gives the result of the canonical "
+        "form, repeated calls agree, and arguments are unchanged afterwards.")
 TRUSTED = ["models: lean/Srctools/Model/C16.lean (_fgd_escape, _write_longstring, _read_colon_list over Tok.run), "
            "C16KV.lean (KVDef.export/_parse, IODef.export/_parse, entity body loop, read_tags, _parse_colon_array; str.casefold/upper as "
            "per-character tables, str.strip for ASCII blanks), C16Bin.lean (BinStrDict, kv/io/resource/entity records as byte lists), C16Lazy.lean (EngineDB.get_ent/_parse_block/get_fgd); "
@@ -1598,6 +1601,175 @@ def search_histories(ctx):
                 break
 
 
+# ----------------------------------------------------------------------------------------- argument forms / aliasing
+# Accepted forms AS CODED (established by experiment on the unchanged tree):
+#   FGD.parse: (File) | (File, fs) | keywords | (str path with or without ".fgd", fs).   Rejected: str without filesystem
+#     (TypeError), pathlib paths (AttributeError), missing file (FileNotFoundError).
+#   FGD.export: () | (None) | (file=None) -> str;  (file object at any position) -> None, text written at the current position;
+#     label_spawnflags / custom_syntax keyword-only.   EntityDef.export(file, label_spawnflags, custom_syntax) positional or keyword.
+#   serialise(fgd, BytesIO at any position) / unserialise(file object positioned where serialise started; file= keyword).
+#     Rejected: bytes / bytearray / memoryview instead of a file object (AttributeError).
+#   EntityDef fields: bases / helpers / resources / kv_order and KVDef.val_list as tuples are accepted by export and
+#     ent_serialise (NOT by copy / deepcopy: `.copy()`); one-shot generators are outside the domain (a second export differs).
+#   EntityDef.engine_def(name): any letter case, positional or classname= keyword.
+
+def _snapshot(fgd):
+    return json.dumps(G.canon_fgd(fgd), sort_keys=True, default=str)
+
+
+def search_argforms(ctx):
+    """Every accepted argument form gives the result of the canonical form, and arguments are unchanged afterwards."""
+    from srctools.fgd import FGD, EntityDef, EntityTypes, KVDef, IODef, ValueTypes, Resource, UnknownHelper
+    from srctools.filesys import VirtualFileSystem
+    from srctools import _engine_db as edb
+    rng = ctx.rng
+
+    def bad(key, what, inp):
+        ctx.witness('argform-' + key, what, dict(inp, kind='argform'))
+
+    for it in range(ctx.budget(6, 40)):
+        seed = rng.getrandbits(40)
+        fgd = G.gen_fgd(random.Random(seed), {'tags': True, 'long_p': 0.05})
+        fgd.map_size_min = fgd.map_size_max = 0
+        inp = {'seed': seed}
+        ctx.case({'argforms': seed}, nontrivial=True, sample_every=5)
+        ctx.count('argform:fgds')
+        # ---- export forms, repeated export, no mutation
+        before = _snapshot(fgd)
+        ref = fgd.export()
+        forms = {'export(None)': fgd.export(None), 'export(file=None)': fgd.export(file=None),
+                 'export(kw defaults)': fgd.export(label_spawnflags=True, custom_syntax=True), 'second export()': fgd.export()}
+        for pos in (0, 7):
+            f = io.StringIO()
+            f.write('x' * pos)
+            r = fgd.export(f)
+            forms[f'export(StringIO at {pos})'] = f.getvalue()[pos:] if (r is None and f.getvalue()[:pos] == 'x' * pos) else f'returned {r!r} / prefix damaged'
+        f = io.StringIO()
+        fgd.export(file=f, custom_syntax=False, label_spawnflags=False)
+        forms['export(file=, cs=False, ls=False) vs str'] = 'same' if f.getvalue() == fgd.export(custom_syntax=False, label_spawnflags=False) else 'differs'
+        ref2 = dict.fromkeys(forms, ref)
+        ref2['export(file=, cs=False, ls=False) vs str'] = 'same'
+        for k, v in forms.items():
+            ctx.count('argform:export-forms')
+            if v != ref2[k]:
+                bad('export', f'FGD.{k} differs from FGD.export() (generated FGD seed {seed})', inp)
+        for ent in fgd:
+            a, b, c = io.StringIO(), io.StringIO(), io.StringIO()
+            ent.export(a); ent.export(b, True, True); ent.export(file=c, label_spawnflags=True, custom_syntax=True)
+            if not (a.getvalue() == b.getvalue() == c.getvalue()):
+                bad('export', f'EntityDef.export positional / keyword forms differ for {ent.classname} (seed {seed})', inp)
+        if _snapshot(fgd) != before:
+            bad('export-mutates', f'FGD.export() changed the FGD it exports: {G.first_diff(json.loads(before), json.loads(_snapshot(fgd)))} (seed {seed})', inp)
+        # ---- parse forms; the same File object parsed twice
+        fs = VirtualFileSystem({'a.fgd': ref, 'sub/b.fgd': ref})
+        try:
+            want = _snapshot(FGD.parse(fs['a.fgd']))
+            pforms = {'parse(File, fs)': lambda: FGD.parse(fs['a.fgd'], fs), 'parse(file=, filesystem=)': lambda: FGD.parse(file=fs['a.fgd'], filesystem=fs),
+                      "parse('a.fgd', fs)": lambda: FGD.parse('a.fgd', fs), "parse('a', fs)": lambda: FGD.parse('a', fs),
+                      "parse('sub/b', fs)": lambda: FGD.parse('sub/b', fs), 'parse(same File again)': lambda: FGD.parse(fs['a.fgd'])}
+            fobj = fs['a.fgd']
+            pforms['parse(File object reused)'] = lambda: (FGD.parse(fobj), FGD.parse(fobj))[1]
+            for k, fn in pforms.items():
+                ctx.count('argform:parse-forms')
+                got = _snapshot(fn())
+                if got != want:
+                    bad('parse', f'FGD.{k} differs from FGD.parse(File): {G.first_diff(json.loads(want), json.loads(got))} (seed {seed})', inp)
+        except Exception as e:
+            bad('parse', f'an accepted form of FGD.parse raised {G.exc_str(e)} (seed {seed})', inp)
+        # ---- the SAME KVDef / IODef object under two tags and in two entities
+        ents = [e for e in fgd if e.keyvalues]
+        if ents:
+            e1 = ents[0]
+            name = next(iter(e1.keyvalues))
+            kv = next(iter(e1.keyvalues[name].values()))
+            shared, indep = G.gen_fgd(random.Random(seed), {'tags': True, 'long_p': 0.05}), G.gen_fgd(random.Random(seed), {'tags': True, 'long_p': 0.05})
+            for tgt, mk in ((shared, lambda o: o), (indep, lambda o: o.copy())):
+                te = [e for e in tgt if e.keyvalues][0]
+                tkv = next(iter(te.keyvalues[name].values()))
+                te.keyvalues[name][frozenset({'ALIASTAG'})] = mk(tkv)
+                other = list(tgt)[-1]
+                other.keyvalues.setdefault('zz_shared', {})[frozenset()] = mk(tkv)
+                io_ = IODef('SharedIO', ValueTypes.INT, 'x') if tgt is shared else None
+                te.inputs['sharedio'] = {frozenset(): io_ or IODef('SharedIO', ValueTypes.INT, 'x')}
+                other.outputs['sharedio'] = {frozenset(): io_ or IODef('SharedIO', ValueTypes.INT, 'x')}
+            ctx.count('argform:aliased-kv')
+            try:
+                t_sh, t_in = shared.export(), indep.export()
+                if t_sh != t_in:
+                    bad('alias', f'an FGD in which one KVDef/IODef object is installed in several places exports differently from one with independent copies (seed {seed})', inp)
+                if shared.export() != t_sh:
+                    bad('alias', f'second export of an FGD with shared KVDef objects differs (seed {seed})', inp)
+            except Exception as e:
+                bad('alias', f'export with a shared KVDef object raised {G.exc_str(e)} (seed {seed})', inp)
+        # ---- tuples where lists are usual (export / ent_serialise only)
+        e = EntityDef(EntityTypes.POINT, 'formtest')
+        hs = [UnknownHelper('h', ['1', '2'])]
+        rs = [Resource('m.mdl'), Resource('s.wav', tags=frozenset({'T'}))]
+        vl = [('0', 'zero', frozenset()), ('1', 'one', frozenset())]
+        def build(conv):
+            x = EntityDef(EntityTypes.POINT, 'formtest', bases=conv(['pbase']), helpers=conv(hs), resources=conv(rs), kv_order=conv(['b', 'a']))
+            x.keyvalues['a'] = {frozenset(): KVDef('a', ValueTypes.CHOICES, 'A', '1', '', conv(vl))}
+            x.keyvalues['b'] = {frozenset(): KVDef('b', ValueTypes.INT, 'B', '2', '')}
+            return x
+        ctx.count('argform:tuple-fields')
+        try:
+            ta, tb, tc = io.StringIO(), io.StringIO(), io.StringIO()
+            build(list).export(ta)
+            tup = build(tuple)
+            tup.export(tb)
+            tup.export(tc)
+            if not (ta.getvalue() == tb.getvalue() == tc.getvalue()):
+                bad('tuple-fields', 'EntityDef with tuple-valued bases/helpers/resources/kv_order/val_list exports differently from the list form', inp)
+        except Exception as ex:
+            bad('tuple-fields', f'EntityDef with tuple-valued fields: export raised {G.exc_str(ex)} (accepted on the unchanged tree)', inp)
+    # ---- binary: stream position, keyword, repeated calls, argument unchanged
+    for it in range(ctx.budget(2, 8)):
+        seed = rng.getrandbits(40)
+        eng = G.engine_pad(random.Random(seed), G.gen_fgd(random.Random(seed), {'engine': True, 'n_ents': rng.randrange(2, 12), 'long_p': 0.0}))
+        inp = {'seed': seed, 'engine': True}
+        before = _snapshot(eng)
+        outs = {}
+        try:
+            for pos in (0, 5):
+                b = io.BytesIO()
+                b.write(b'J' * pos)
+                with contextlib.redirect_stdout(io.StringIO()), warnings.catch_warnings():
+                    warnings.simplefilter('ignore')
+                    if pos:
+                        edb.serialise(fgd=eng, file=b)
+                    else:
+                        edb.serialise(eng, b)
+                if b.getvalue()[:pos] != b'J' * pos:
+                    bad('serialise', f'serialise overwrote data before the stream position (seed {seed})', inp)
+                b.seek(pos)
+                db = edb.unserialise(b) if pos == 0 else edb.unserialise(file=b)
+                outs[pos] = json.dumps({k: G.canon_ent(e) for k, e in db.get_fgd().entities.items()}, sort_keys=True)
+                b.seek(pos)
+                again = edb.unserialise(b)
+                if json.dumps({k: G.canon_ent(e) for k, e in again.get_fgd().entities.items()}, sort_keys=True) != outs[pos]:
+                    bad('serialise', f'unserialise of the same stream twice differs (seed {seed})', inp)
+            ctx.count('argform:serialise-forms', 2)
+            if outs[0] != outs[5]:
+                bad('serialise', f'serialise/unserialise at stream position 5 differs from position 0: {G.first_diff(json.loads(outs[0]), json.loads(outs[5]))} (seed {seed})', inp)
+            if _snapshot(eng) != before:
+                bad('serialise-mutates', f'serialise() changed the FGD it was given: {G.first_diff(json.loads(before), json.loads(_snapshot(eng)))} (seed {seed})', inp)
+        except Exception as e:
+            bad('serialise', f'an accepted form of serialise/unserialise raised {G.exc_str(e)} (seed {seed})', inp)
+    # ---- engine_def: any letter case, keyword
+    want = _STATE.get('want')
+    names = sorted(want) if want else []
+    for nm in rng.sample(names, min(len(names), ctx.budget(12, 80))):
+        for form in (nm.upper(), nm.title(), ''.join(c.upper() if i % 2 else c for i, c in enumerate(nm))):
+            ctx.count('argform:engine_def-case')
+            try:
+                e = EntityDef.engine_def(form) if rng.random() < 0.5 else EntityDef.engine_def(classname=form)
+                d = G.first_diff(want[nm], G.canon_ent(e, deep_bases=True), nm)
+            except Exception as ex:
+                d = 'raised ' + G.exc_str(ex)
+            if d:
+                bad('engine_def-case', f'EntityDef.engine_def({form!r}) differs from the definition of {nm!r}: {d}', {'name': form})
+
+
 HELPER_RAW = {
     'size': [['-8 -8 -8', '8 8 8'], ['16 16 16'], ['-8.0 -8 -8', '8 8 8']], 'bbox': [['-4 -4 0', '4 4 16']],
     'color': [['255 128 0'], ['255  128 0'], ['1.0 1 1']], 'sphere': [[], ['radius'], ['radius', '255 0 0']],
@@ -1659,6 +1831,7 @@ def search(ctx):
     guard(ctx, 'shipped database', search_shipped, ctx)
     guard(ctx, 'histories with in-place edits', search_histories, ctx)
     guard(ctx, 'typed helpers', search_helpers, ctx)
+    guard(ctx, 'argument forms', search_argforms, ctx)
     shrink(ctx)
     ctx.notes.append(f'search wall {time.time() - t0:.1f}s')
 
@@ -1747,6 +1920,18 @@ def replay(ctx, payload):
             print('  ->', p_)
         for p_ in probs:
             ctx.witness('history', p_, inp)
+    elif kind == 'argform':
+        ctx.tier = 'quick'
+        if _STATE.get('want') is None:
+            search_histories_seed = None
+            from srctools import _engine_db as edb
+            pristine = edb.unserialise(io.BytesIO(shipped_bytes())).get_fgd()
+            _STATE['want'] = {k: G.canon_ent(e, deep_bases=True) for k, e in pristine.entities.items()}
+        if 'seed' in inp:
+            ctx.rng = random.Random(0)
+            orig = ctx.rng.getrandbits
+            ctx.rng.getrandbits = lambda n, _s=[inp['seed']]: _s[0]
+        search_argforms(ctx)
     elif kind == 'helper':
         search_helpers(ctx)
     elif kind == 'edge-text':
